@@ -30,6 +30,8 @@ enum Ep {
     RotateEarlyNoBypass,
     CollectFees,
     Refund,
+    /// collect_fees with the collector itself as the receiver (still the collector's call to make)
+    CollectFeesToCollector,
     /// refunds of amount 0 and -1: whatever the collector's own call does, nobody else's may succeed
     RefundZero,
     RefundNegative,
@@ -100,7 +102,7 @@ impl C06 {
         let mut v = vec![Ep::TransferOwnership(2), Ep::TransferOwnership(0), Ep::TransferOwnership(4), Ep::TransferOwnership(5), Ep::Upgrade, Ep::Migrate];
         match kind {
             0 => v.extend([Ep::TransferOperatorship(2), Ep::TransferOperatorship(1), Ep::TransferOperatorship(4), Ep::TransferOperatorship(5), Ep::RotateBypass, Ep::RotateBypassOld, Ep::RotateEarlyNoBypass]),
-            1 => v.extend([Ep::CollectFees, Ep::Refund, Ep::RefundZero, Ep::RefundNegative]),
+            1 => v.extend([Ep::CollectFees, Ep::CollectFeesToCollector, Ep::Refund, Ep::RefundZero, Ep::RefundNegative]),
             2 => v.extend([Ep::AddOperator, Ep::RemoveOperator]),
             3 => v.extend([Ep::SetTrusted, Ep::RemoveTrusted]),
             _ => v.extend([Ep::SetAdmin(2), Ep::SetAdmin(0), Ep::SetAdmin(4), Ep::AddMinter, Ep::RemoveMinter, Ep::Mint]),
@@ -157,6 +159,7 @@ impl C06 {
                 ("rotate_signers", vec![to_val(env, &next.scval()), to_val(env, &proof), w.v(true)])
             }
             Ep::CollectFees => ("collect_fees", vec![p[3].to_val(), to_val(env, &token_scval(&w.sc_addr(&ctx.asset), 1))]),
+            Ep::CollectFeesToCollector => ("collect_fees", vec![p[1].to_val(), to_val(env, &token_scval(&w.sc_addr(&ctx.asset), 1))]),
             Ep::Refund => ("refund", vec![to_val(env, &sstr("m")), p[3].to_val(), to_val(env, &token_scval(&w.sc_addr(&ctx.asset), 1))]),
             Ep::RefundZero => ("refund", vec![to_val(env, &sstr("m")), p[3].to_val(), to_val(env, &token_scval(&w.sc_addr(&ctx.asset), 0))]),
             Ep::RefundNegative => ("refund", vec![to_val(env, &sstr("m")), p[3].to_val(), to_val(env, &token_scval(&w.sc_addr(&ctx.asset), -1))]),
@@ -179,7 +182,7 @@ impl C06 {
             Ep::TransferOperatorship(_) => (m.operator, true),
             Ep::RotateBypass | Ep::RotateBypassOld => (m.operator, true),
             Ep::RotateEarlyNoBypass => (m.operator, false),
-            Ep::CollectFees | Ep::Refund | Ep::RefundZero | Ep::RefundNegative => (1, true),
+            Ep::CollectFees | Ep::CollectFeesToCollector | Ep::Refund | Ep::RefundZero | Ep::RefundNegative => (1, true),
             Ep::AddOperator | Ep::SetTrusted => (m.owner, !m.flag),
             Ep::RemoveOperator | Ep::RemoveTrusted => (m.owner, m.flag),
             Ep::AddMinter | Ep::RemoveMinter => (m.owner, true),
@@ -231,7 +234,7 @@ impl Scenario for C06 {
         }
         for ep in self.eps(ctx.kind) {
             // payouts, mints and rotations are bounded so that the state space stays finite
-            if m.budget == 0 && matches!(ep, Ep::RotateBypass | Ep::RotateBypassOld | Ep::RotateEarlyNoBypass | Ep::CollectFees | Ep::Refund | Ep::Mint) {
+            if m.budget == 0 && matches!(ep, Ep::RotateBypass | Ep::RotateBypassOld | Ep::RotateEarlyNoBypass | Ep::CollectFees | Ep::CollectFeesToCollector | Ep::Refund | Ep::Mint) {
                 continue;
             }
             if ep == Ep::RotateBypassOld && m.epoch < 2 {
@@ -322,7 +325,7 @@ impl Scenario for C06 {
             Ep::Upgrade => m.window = true,
             Ep::Migrate => m.window = false,
             Ep::RotateBypass | Ep::RotateBypassOld | Ep::RotateEarlyNoBypass => { m.budget -= 1; m.epoch += 1; m.elapsed = false; }
-            Ep::CollectFees | Ep::Refund | Ep::Mint => m.budget -= 1,
+            Ep::CollectFees | Ep::CollectFeesToCollector | Ep::Refund | Ep::Mint => m.budget -= 1,
             Ep::RefundZero | Ep::RefundNegative => {}
             Ep::AddOperator | Ep::SetTrusted => m.flag = true,
             Ep::RemoveOperator | Ep::RemoveTrusted => m.flag = false,
@@ -419,7 +422,7 @@ fn main() {
         let mut o = Opts::new(tier, if tier == "thorough" { 14 } else { 9 });
         o.min_depth = 4;
         o.xcheck = tier == "thorough";
-        o.rule = "per contract (gateway, gas service, operators, ITS, interchain token): every administrative entry point (ownership / operatorship transfer to a successor, to self and back, to the all-zero account and to the contract itself (after which every administrative call is refused for every authoriser); upgrade; migrate; operator-bypass rotation with a proof from the latest and from an older retained set; a non-bypass rotation (refused for every authoriser until the minimum delay has passed since the last rotation of either kind, accepted for every authoriser afterwards); collect_fees; refund (also of amount 0 and -1, which nobody but the collector may get accepted); add/remove operator; set/remove trusted chain; add/remove minter; owner mint; set_admin) x every candidate authoriser {initial owner, initial operator/collector, successor/beneficiary, stranger, nobody, the current holder signing altered arguments, the current holder authorising the same call on a twin contract}; all histories to fixpoint (payouts / mints / rotations bounded to 3); role queries and the affected configuration compared after every new state, and again after every exported function the check does not drive by name has been called unauthorised".into();
+        o.rule = "per contract (gateway, gas service, operators, ITS, interchain token): every administrative entry point (ownership / operatorship transfer to a successor, to self and back, to the all-zero account and to the contract itself (after which every administrative call is refused for every authoriser); upgrade; migrate; operator-bypass rotation with a proof from the latest and from an older retained set; a non-bypass rotation (refused for every authoriser until the minimum delay has passed since the last rotation of either kind, accepted for every authoriser afterwards); collect_fees (to a third party and to the collector itself); refund (also of amount 0 and -1, which nobody but the collector may get accepted); add/remove operator; set/remove trusted chain; add/remove minter; owner mint; set_admin) x every candidate authoriser {initial owner, initial operator/collector, successor/beneficiary, stranger, nobody, the current holder signing altered arguments, the current holder authorising the same call on a twin contract}; all histories to fixpoint (payouts / mints / rotations bounded to 3); role queries and the affected configuration compared after every new state, and again after every exported function the check does not drive by name has been called unauthorised".into();
         (C06, o)
     });
 }
